@@ -8,6 +8,9 @@ pub mod c06;
 pub mod c07;
 pub mod c08;
 pub mod c09;
+pub mod c10;
+pub mod c14;
+pub mod c15;
 pub mod c12;
 pub mod c13;
 pub mod c17;
@@ -24,6 +27,9 @@ pub fn dispatch(id: &str, tier: Tier) -> i32 {
         "C07" => c07::run(tier).finish(),
         "C08" => c08::run(tier).finish(),
         "C09" => c09::run(tier).finish(),
+        "C10" => c10::run(tier).finish(),
+        "C14" => c14::run(tier).finish(),
+        "C15" => c15::run(tier).finish(),
         "C12" => c12::run(tier).finish(),
         "C13" => c13::run(tier).finish(),
         "C17" => c17::run(tier).finish(),
